@@ -276,6 +276,17 @@ type updCaller struct {
 	newMf    *manifest.Manifest
 }
 
+// shapes of the self-updating callers: quick = 6 (30 ordered pairs), thorough = 9 (72 ordered pairs)
+func updShapeSet(r *vk.Run) []updShape {
+	if !r.Thorough() {
+		return updShapes
+	}
+	return append(append([]updShape{}, updShapes...),
+		updShape{"Cg/[run]", []permShape{{Desc: "hash:Cg", Methods: []string{"run"}}}},
+		updShape{"*/[run]", []permShape{{Desc: "*", Methods: []string{"run"}}}},
+		updShape{"G3/*+Cn/*", []permShape{{Desc: "group:G3", Wild: true}, {Desc: "hash:Cn", Wild: true}}})
+}
+
 func runUpdEra(r *vk.Run, era string, st *updStats) error {
 	uw, err := newUpdWorld(era)
 	if err != nil {
@@ -312,8 +323,8 @@ func runUpdEra(r *vk.Run, era string, st *updStats) error {
 	}
 	// callers that update themselves
 	var ks []*updCaller
-	for _, o := range updShapes {
-		for _, nw := range updShapes {
+	for _, o := range updShapeSet(r) {
+		for _, nw := range updShapeSet(r) {
 			if o.Name == nw.Name {
 				continue
 			}
@@ -398,6 +409,44 @@ func runUpdEra(r *vk.Run, era string, st *updStats) error {
 		callerPhase("same-context", newP) // before Domovoi: the state stored in ContractManagement
 	}
 	callerPhase("same-tx-new-context", newP)
+	// a transaction that updates and then FAULTS changes nothing: later transactions of the same block and
+	// the next invocation still see P_old (the block's and the transaction's layers of the contract cache)
+	for lo := 0; lo < len(ks) && !r.Expired(); lo += 10 {
+		part := ks[lo:min(lo+10, len(ks))]
+		var txs []*transaction.Transaction
+		for _, k := range part {
+			tx, err := uw.n.MakeTx(callScript(k.c.Hash, "run", 15, []any{updateOp(k.newMf), []any{chainx.OpThrow}}), val, chainx.SysFee(20*gas))
+			if err != nil {
+				return err
+			}
+			txs = append(txs, tx)
+		}
+		for _, k := range part {
+			for _, t := range updTargets {
+				tx, err := uw.n.MakeTx(callScript(k.c.Hash, "run", 15, []any{uw.callOp(t)}), val, chainx.SysFee(3*gas))
+				if err != nil {
+					return err
+				}
+				txs = append(txs, tx)
+			}
+		}
+		res, faults, err := uw.blockResults(txs)
+		if err != nil {
+			return fmt.Errorf("failed-update block: %w", err)
+		}
+		for i := range part {
+			if res[i] == "allowed" {
+				return fmt.Errorf("the update-then-throw transaction of %s halted", part[i].name)
+			}
+		}
+		for i, k := range part {
+			for j, t := range updTargets {
+				x := len(part) + i*len(updTargets) + j
+				judge("upd-caller", "same-block-after-faulted-update", k.name, k.old.Name, k.new.Name, t, res[x], uw.want(k.old.P, t), faults[x])
+			}
+		}
+	}
+	callerPhase("next-invocation-after-faulted-update", oldP)
 	// same block: updates first, then the calls
 	for lo := 0; lo < len(ks) && !r.Expired(); lo += 10 {
 		part := ks[lo:min(lo+10, len(ks))]
@@ -662,6 +711,14 @@ func runStaged(r *vk.Run, st *updStats) (map[string]any, error) {
 	for name, h := range natives {
 		uw.byName[name] = &callee{Name: name, Hash: h}
 	}
+	// N (ext_names_test.go): its non-safe methods use System.Storage.Local.Put, a system call that appears with Faun
+	uw.gkeys["G2"] = chainx.Acc(12).PrivateKey()
+	nc, err := buildN(uw.sender, uw.gkeys["G2"])
+	if err != nil {
+		return nil, err
+	}
+	natives["N"] = nc.Hash
+	uw.byName["N"] = &callee{Name: "N", Hash: nc.Hash, Groups: []string{"G2"}}
 	tg := func(c, m string, args ...any) stagedTarget {
 		return stagedTarget{c, natives[c], m, append([]any{}, args...)}
 	}
@@ -673,6 +730,7 @@ func runStaged(r *vk.Run, st *updStats) (map[string]any, error) {
 		tg("Management", "isContract", acc), tg("NEO", "onNEP17Payment", acc, 1, nil), tg("NEO", "getCommitteeAddress"),
 		tg("Treasury", "verify"), tg("Treasury", "onNEP17Payment", acc, 1, nil),
 		tg("GAS", "transfer", acc, acc, 0, nil),
+		tg("N", "a"), tg("N", "m"), tg("N", "m", 7),
 	}
 	shapes := []updShape{
 		{"none", nil},
@@ -682,7 +740,7 @@ func runStaged(r *vk.Run, st *updStats) (map[string]any, error) {
 		{"*/[lockDepositUntil,setWhitelistFeeContract,onNEP17Payment]", []permShape{{Desc: "*", Methods: []string{"lockDepositUntil", "setWhitelistFeeContract", "onNEP17Payment"}}}},
 		{"Treasury/*+Policy/[setFeePerByte]", []permShape{{Desc: "hash:Treasury", Wild: true}, {Desc: "hash:Policy", Methods: []string{"setFeePerByte"}}}},
 	}
-	var cs []*neotest.Contract
+	cs := []*neotest.Contract{}
 	for i, s := range shapes {
 		c, err := uw.variant(fmt.Sprintf("H%d", i), nil, uw.realPerms(s.P, false), nil)
 		if err != nil {
@@ -690,9 +748,17 @@ func runStaged(r *vk.Run, st *updStats) (map[string]any, error) {
 		}
 		cs = append(cs, c)
 	}
-	if err := uw.deployAll(cs...); err != nil {
+	if err := uw.deployAll(append([]*neotest.Contract{nc}, cs...)...); err != nil {
 		return nil, err
 	}
+	val := []neotest.Signer{uw.n.Validator}
+	type blockObs struct {
+		h      uint32
+		caller int
+		t      stagedTarget
+		got    string
+	}
+	var inBlocks []blockObs
 	last := uint32(0)
 	for _, h := range uw.n.BC.GetConfig().Hardforks {
 		last = max(last, h)
@@ -766,16 +832,67 @@ func runStaged(r *vk.Run, st *updStats) (map[string]any, error) {
 				r.Outcome("staged:denied")
 			}
 		})
-		if _, err := uw.n.AddBlock(); err != nil {
-			return nil, err
+		// the next block carries the same calls of the callers without any / with all permissions as real
+		// transactions (in the activation block itself a native is deployed but not callable yet)
+		var txs []*transaction.Transaction
+		var obs []blockObs
+		for _, ci := range []int{0, 1} {
+			for _, t := range targets {
+				tx, err := uw.n.MakeTx(callScript(cs[ci].Hash, "run", 15, []any{[]any{chainx.OpCall, t.Hash.BytesBE(), t.Method, 15, t.Args}}), val, chainx.SysFee(2*gas))
+				if err != nil {
+					return nil, err
+				}
+				txs = append(txs, tx)
+				obs = append(obs, blockObs{h: h + 1, caller: ci, t: t})
+			}
 		}
+		res, _, err := uw.blockResults(txs)
+		if err != nil {
+			return nil, fmt.Errorf("staged block %d: %w", h+1, err)
+		}
+		for i := range obs {
+			obs[i].got = res[i]
+		}
+		inBlocks = append(inBlocks, obs...)
 	}
+	// judged with the final manifests: a caller without permissions never completes a call of a non-safe
+	// method in any block; what the wildcard caller achieves is recorded
+	firstBlockOK := map[string]uint32{}
+	for _, o := range inBlocks {
+		tn := fmt.Sprintf("%s.%s/%d", o.t.Contract, o.t.Method, len(o.t.Args))
+		st.count("staged-block")
+		if o.caller == 1 {
+			if o.got == "allowed" {
+				if v, ok := firstBlockOK[tn]; !ok || o.h < v {
+					firstBlockOK[tn] = o.h
+				}
+			}
+			r.Outcome("staged-block:wildcard:" + o.got)
+			continue
+		}
+		state := uw.n.BC.GetContractState(o.t.Hash)
+		var md *manifest.Method
+		if state != nil {
+			md = state.Manifest.ABI.GetMethod(o.t.Method, len(o.t.Args))
+		}
+		if md != nil && !md.Safe && o.got == "allowed" {
+			st.report(r, "staged-block", fmt.Sprintf("permission:staged-block:h%d:none->%s:allowed-but-predicate-denied", o.h, tn),
+				updCase{Sub: "staged", Era: fmt.Sprintf("block %d", o.h), Phase: "block", Caller: "none", Target: tn, Got: o.got, Want: "denied"})
+			continue
+		}
+		r.Outcome("staged-block:none:" + o.got)
+	}
+	var fb []string
+	for k, v := range firstBlockOK {
+		fb = append(fb, fmt.Sprintf("%s@%d", k, v))
+	}
+	sort.Strings(fb)
 	var fs []string
 	for k, v := range firstSeen {
 		fs = append(fs, fmt.Sprintf("%s@%d", k, v))
 	}
 	sort.Strings(fs)
-	return map[string]any{"hardfork_heights": uw.n.BC.GetConfig().Hardforks, "heights_explored": heights, "callers": len(shapes), "targets": len(targets), "method_on_ledger_from_height": fs}, nil
+	return map[string]any{"hardfork_heights": uw.n.BC.GetConfig().Hardforks, "heights_explored": heights, "callers": len(shapes), "targets": len(targets), "method_on_ledger_from_height": fs, "in_block_calls": len(inBlocks), "wildcard_caller_first_halting_in_block": fb}, nil
 }
 
 func runUpd(r *vk.Run) map[string]any {
@@ -796,7 +913,7 @@ func runUpd(r *vk.Run) map[string]any {
 		total += v
 	}
 	var sh []string
-	for _, s := range updShapes {
+	for _, s := range updShapeSet(r) {
 		sh = append(sh, s.Name)
 	}
 	return map[string]any{
@@ -804,11 +921,33 @@ func runUpd(r *vk.Run) map[string]any {
 		"cells_by_family_era_phase":       st.cells,
 		"outcomes":                        st.outcomes,
 		"permission_shapes":               sh,
-		"self_updating_callers_per_era":   len(updShapes) * (len(updShapes) - 1),
+		"self_updating_callers_per_era":   len(updShapeSet(r)) * (len(updShapeSet(r)) - 1),
 		"targets":                         "Cn.run, Cn.other, Cg.run (group G1), Cn.runSafe (safe)",
 		"callee_mutations":                "Mg gains group G1; Ml loses G1; Ms: other becomes safe; Mu: runSafe becomes non-safe; Mf1/Mf2/Mf3: forged G1 membership (signature over another hash / by another key / next to a genuine G3 membership)",
-		"phases":                          "before, same-context (caller side), same-tx(-new-context), same-block, next-invocation, after-restart",
+		"phases":                          "before, same-context (caller side), same-tx(-new-context), same-block-after-faulted-update, next-invocation-after-faulted-update, same-block, next-invocation, after-restart",
 		"staged_hardforks":                staged,
 		"violations_by_class_incl_hidden": st.reported,
+	}
+}
+
+func replayUpd(r *vk.Run, uc updCase) {
+	for i := 0; i < 5; i++ {
+		before := r.NViolations()
+		st := &updStats{cells: map[string]int{}, reported: map[string]int{}, outcomes: map[string]int{}}
+		var err error
+		switch {
+		case uc.Sub == "staged":
+			_, err = runStaged(r, st)
+		case uc.Era == "pre":
+			err = runUpdEra(r, "pre", st)
+		default:
+			err = runUpdEra(r, "post", st)
+		}
+		if err != nil {
+			fmt.Println("CHECK-ERROR:", err)
+			return
+		}
+		_ = before
+		fmt.Printf("replay %d: family %s (%s) re-run on a fresh chain: mismatches in this pass by class: %v\n", i, uc.Sub, uc.Era, st.reported)
 	}
 }
